@@ -247,6 +247,7 @@ func (a *NodeActor) tryJoinSeeds(ctx vivid.ActorContext, seeds []string) error {
 		a.clusterView.AddMember(a.nodeState)
 		a.incrementLocalVersion()
 		a.clusterView.MergeFromWithOptions(resp.View, a.getMergeOptions())
+		a.dropSupersededIncarnations()
 		// 重启分代：若视图中已有本节点（例如上次离开后重启再入群），采用更高分代以便他节点采纳新实例
 		if prev := a.clusterView.Members[a.nodeState.ID]; prev != nil && prev.Generation >= a.nodeState.Generation {
 			a.nodeState.Generation = prev.Generation + 1
@@ -370,6 +371,7 @@ func (a *NodeActor) handleJoinRequest(ctx vivid.ActorContext, m *JoinRequest) {
 	accepted := m.NodeState.Clone()
 	accepted.Status = MemberStatusUp
 	a.clusterView.AddMember(accepted)
+	a.dropSupersededIncarnations()
 	a.incrementLocalVersion()
 	a.events.PublishMembersChanged(ctx, a.memberAddresses(), 1, nil)
 	a.events.PublishLeaderIfChanged(ctx, a.clusterView, a.nodeState.Address, a.quorumCalc.SatisfiesQuorum(a.clusterView))
@@ -409,9 +411,83 @@ func (a *NodeActor) handleGossip(ctx vivid.ActorContext, m *GossipMessage) {
 			}
 		}
 	}
-	if a.clusterView.MergeFromWithOptions(m.View, a.getMergeOptions()) {
+	a.dropStaleUnknownMembers(m.View, sender)
+	changed := a.clusterView.MergeFromWithOptions(m.View, a.getMergeOptions())
+	if a.dropSupersededIncarnations() {
+		a.incrementLocalVersion()
+		changed = true
+	}
+	if changed {
 		a.events.PublishLeaderIfChanged(ctx, a.clusterView, a.nodeState.Address, a.quorumCalc.SatisfiesQuorum(a.clusterView))
 		a.broadcastViewOnce(ctx)
+	}
+}
+
+// dropSupersededIncarnations 保证同一地址在视图中只保留一个实例：进程重启后 NodeID 会变化，新旧实例地址相同，
+// 旧实例必然已经不存在；若保留，它会以「成员」身份长期存在于视图中（本节点的旧实例甚至永远不会被自己的故障检测剔除），并随 Gossip 传播。
+// 本节点占用自身地址，因此与本节点同地址的其它实例一律移除；其余地址保留 Timestamp 最新的实例。返回是否有移除。
+func (a *NodeActor) dropSupersededIncarnations() (removed bool) {
+	if a.clusterView == nil {
+		return false
+	}
+	newest := make(map[string]*NodeState, len(a.clusterView.Members))
+	for _, m := range a.clusterView.Members {
+		if m == nil || m.Address == "" {
+			continue
+		}
+		cur := newest[m.Address]
+		switch {
+		case cur == nil:
+			newest[m.Address] = m
+		case m.ID == a.nodeState.ID:
+			newest[m.Address] = m
+		case cur.ID == a.nodeState.ID:
+		case m.Timestamp > cur.Timestamp:
+			newest[m.Address] = m
+		}
+	}
+	for id, m := range a.clusterView.Members {
+		if m == nil || m.Address == "" {
+			continue
+		}
+		if keep := newest[m.Address]; keep != nil && keep.ID != id {
+			a.clusterView.RemoveMember(id)
+			removed = true
+		}
+	}
+	return removed
+}
+
+// dropStaleUnknownMembers 在合并前从收到的视图中去掉「本地不存在、且按发送方记录的 LastSeen 已超过剔除阈值」的成员。
+// 合并只增不减：若不加过滤，已被本地故障检测剔除的宕机节点会从尚未剔除它的对端视图中被重新采纳，下一轮检测再被剔除，如此往复，宕机节点永远无法从集群中消失。
+// 发送方自身（直接联系）不受此限制。
+func (a *NodeActor) dropStaleUnknownMembers(view *ClusterView, sender vivid.ActorRef) {
+	if view == nil || a.clusterView == nil {
+		return
+	}
+	confirmDur := a.options.SuspectConfirmDuration
+	if confirmDur < 0 {
+		confirmDur = 0
+	}
+	senderAddr := ""
+	if sender != nil {
+		senderAddr = sender.GetAddress()
+	}
+	now := time.Now()
+	for id, member := range view.Members {
+		if member == nil || member.Address == a.nodeState.Address || member.Address == senderAddr {
+			continue
+		}
+		if _, known := a.clusterView.Members[id]; known {
+			continue
+		}
+		timeout := a.failureDetector.TimeoutFor(member, a.nodeState.Datacenter())
+		if timeout <= 0 {
+			continue
+		}
+		if member.LastSeen < now.Add(-(timeout + confirmDur)).UnixNano() {
+			delete(view.Members, id)
+		}
 	}
 }
 
@@ -529,7 +605,12 @@ func (a *NodeActor) tryQuorumRecovery(ctx vivid.ActorContext) {
 			if !a.acceptProtocolVersion(resp.View.ProtocolVersion) {
 				continue
 			}
-			if a.clusterView.MergeFromWithOptions(resp.View, a.getMergeOptions()) {
+			merged := a.clusterView.MergeFromWithOptions(resp.View, a.getMergeOptions())
+			if a.dropSupersededIncarnations() {
+				a.incrementLocalVersion()
+				merged = true
+			}
+			if merged {
 				a.metricsUpdater.Update(ctx, a.clusterView)
 				a.broadcastViewOnce(ctx)
 				ctx.Logger().Debug("quorum recovery: merged view from seed", log.String("seed", seeds[i]))
